@@ -32,6 +32,13 @@ pub trait RingBuf {
     /// Returns the oldest item inside the buffer.
     /// Panics if there is no available item.
     fn pop(&mut self) -> Self::Item;
+
+    /// Returns a reference to the `idx`-th oldest stored item, if the buffer
+    /// supports inspection (verification hook, never used by the crate)
+    #[cfg(futures_intrusive_verif)]
+    fn verif_get(&self, _idx: usize) -> Option<&Self::Item> {
+        None
+    }
 }
 
 /// An array-backed Ring Buffer
@@ -148,6 +155,19 @@ where
         self.size -= 1;
         val
     }
+
+    #[cfg(futures_intrusive_verif)]
+    fn verif_get(&self, idx: usize) -> Option<&Self::Item> {
+        if idx >= self.size {
+            return None;
+        }
+        let pos = (self.recv_idx + idx) % self.capacity();
+        // Safety: `size` items starting at recv_idx have been written
+        unsafe {
+            let arr_ptr = self.buffer.as_ptr() as *const T;
+            Some(&*arr_ptr.add(pos))
+        }
+    }
 }
 
 impl<T, A> Drop for ArrayBuf<T, A>
@@ -240,6 +260,11 @@ mod if_alloc {
             assert!(self.buffer.len() > 0);
             self.buffer.pop_front().unwrap()
         }
+
+        #[cfg(futures_intrusive_verif)]
+        fn verif_get(&self, idx: usize) -> Option<&Self::Item> {
+            self.buffer.get(idx)
+        }
     }
 
     /// A Ring Buffer which stores all items on the heap but grows dynamically.
@@ -309,6 +334,11 @@ mod if_alloc {
         fn pop(&mut self) -> Self::Item {
             debug_assert!(self.buffer.len() > 0);
             self.buffer.pop_front().unwrap()
+        }
+
+        #[cfg(futures_intrusive_verif)]
+        fn verif_get(&self, idx: usize) -> Option<&Self::Item> {
+            self.buffer.get(idx)
         }
     }
 }
